@@ -29,6 +29,14 @@ theorem kept_directives_preserve_procedures (gs : List (List CfiDir)) (s t : Boo
     (h : procRun (some s) gs.flatten = some t) : procRun (some s) (requiredGroups gs) = some t :=
   requiredGroups_brackets gs s t h
 
+/-- **an empty block gives up none of its directives** when it is removed (they describe the
+code that follows it - e.g. the closing directives of a patch that ends in a jump): what
+`_required_cfi_directives` keeps of a zero-sized code block is its whole stream, in order -/
+theorem empty_block_keeps_all (ir : IR) (blk : Block) (hc : blk.isCode = true) (hz : blk.size = 0) :
+    ir.requiredCfi blk = ((sortGroups (cfiGet ir.aux.cfi blk.id)).map (·.2)).flatten := by
+  unfold IR.requiredCfi
+  simp [hc, hz]
+
 /-- the split point: keep ++ move is the original list; nothing that stays in front is an
 endproc; what moves behind the inserted code starts with the endproc -/
 theorem split_point_rule (ds : List CfiDir) :
